@@ -107,6 +107,33 @@ DISTRIBUTE = {"C01": 40, "C03": 40, "C04": 60, "C08": 40, "C16": 40, "C20": 30}
 MIGRATE = {"C01": 150, "C02": 60, "C03": 60, "C04": 40, "C08": 60, "C09": 200, "C12": 40, "C16": 40, "C20": 40}
 
 
+# checks that also get the runs in which the log list changes between restarts (Retire.tla / Trace_Retire.tla)
+RETIRE = {"C01", "C02", "C03", "C08", "C09", "C12", "C16", "C20"}
+RETIRE_PROPS = ["RetiredFrozen", "RetiredRefused", "ReadsIgnoreConf", "ReconfKeepsStore", "OneHistory"]
+
+
+def judge_retire(work, rep, c, trace, events):
+    """TLC first checks Retire.tla itself on the constants of the plan (every property across every change of the log list), then judges the trace."""
+    rc = {k: v for k, v in c.items() if k in ("Logs", "MaxSize", "NBranch", "ForkAt", "MaxLines", "NWitKeys", "ZeroWedge", "PadGuard", "Olds", "BadAuths")}
+    name = "MC_Retire(%d logs, 0..%d)" % (len(c["Logs"]), c["MaxSize"])
+    cfg = cfg_text(spec=None, init_next=("RInit", "RNext"), constants=rc, invariants=["RTypeOK", "CarriesOn"], properties=RETIRE_PROPS, view="RView")
+    r = require_ok(tlc(work, "MC_Retire", cfg, name="retire-design", timeout=1200), "design check " + name)
+    rep.add_model(name, r)
+    jc = dict(rc)
+    jc["TraceFile"] = trace
+    cfg = cfg_text(spec="TraceSpec", constants=jc, action_constraints=["Monitor"], postcondition="Done")
+    r = tlc(work, "MC_Trace_Retire", cfg, name="judge-retire", workers=1, timeout=3600, heap="12g")
+    if not r.ok:
+        raise Inconclusive("judge (Trace_Retire) failed: %s\n%s" % (r.error or r.violated, r.out[-3000:]))
+    nconf = sum(1 for e in events if e.get("e") == "conf")
+    nref = sum(1 for e in events if e.get("e") == "update" and e.get("v") == "UnknownLog")
+    rep.cov["reconfigurations_executed"] = rep.cov.get("reconfigurations_executed", 0) + nconf
+    rep.cov["requests_for_a_retired_log"] = rep.cov.get("requests_for_a_retired_log", 0) + nref
+    if not nconf or not nref:
+        raise Inconclusive("reconfiguration runs executed no reconfiguration / no request for a retired log (%d, %d)" % (nconf, nref))
+    return [["FAIL", f["id"], f["name"], f["i"], f["run"], f["k"], f["sig"]] for f in map(json.loads, r.prints("FAIL"))]
+
+
 # checks whose first two-key plan also gets the runs over a store left behind by an earlier incarnation of the witness (restored_runs)
 RESTORED = {"C01", "C03", "C04", "C08", "C09"}
 
@@ -193,6 +220,34 @@ def make_check(prop, plans_of, rule, nontrivial, level="model_checking", assumpt
                                         + [{"op": "get", "log": x} for x in sorted(c["Logs"])]})
                 if mig:
                     passes.append((mig, ["sqlfile"], ["id"], tagname(pl.name) + "mig", pl.name + " + upgrade over a released database"))
+                if prop in RETIRE and not rep.cov.get("reconfiguration_runs"):
+                    # the CONFIGURATION changes (Retire.tla: `conf` is a variable, Reconfigure an environment action): a log is retired, requests of every
+                    # kind follow for it (refused outright: no bytes, no effect, no counter) and for the others (as ever), it is read and listed, then
+                    # reinstated - and an honest log carries on from what was kept; retired again, reinstated again. Judged by Trace_Retire.
+                    ret = []
+                    for r_ in rng.sample(runs, min(len(runs), nmig)):
+                        st_ = r_.get("steps") or []
+                        named = sorted({x["log"] for x in st_ if x.get("op") in ("update", "probe") and x.get("log") in c["Logs"]})
+                        if not named:
+                            continue
+                        L = rng.choice(named)
+                        others = [x for x in sorted(c["Logs"]) if x != L]
+                        sizes = list(range(0, c["MaxSize"] + 1))
+                        bad = lambda n_: {"op": "update", "log": L, "req": {"auth": "badsig", "old": 0, "b": 0, "n": n_, "extra": 0, "stale": 0, "ext": 0, "pf": {"k": "empty"}}}
+                        fresh = lambda n_, b_: {"op": "update", "log": L, "req": {"auth": "good", "old": 0, "b": b_, "n": n_, "extra": 0, "stale": 0, "ext": 0, "pf": {"k": "empty"}}}
+                        reads = [{"op": "get", "log": L}, {"op": "getlogs"}] + [{"op": "get", "log": x} for x in others]
+                        while_retired = ([{"op": "probe", "log": L, "n": n_} for n_ in sizes] + [bad(rng.choice(sizes))]
+                                         + [fresh(n_, b_) for n_ in sizes[1:] for b_ in (0, 1)]
+                                         + [{"op": "probe", "log": x, "n": rng.choice(sizes)} for x in others])
+                        rng.shuffle(while_retired)
+                        back = [{"op": "probe", "log": L, "n": n_} for n_ in sorted(rng.sample(sizes, 2))] + [fresh(rng.choice(sizes[1:]), 1)]
+                        ret.append({"id": r_["id"] + "-reconf", "steps": st_ + [{"op": "migrate", "cls": "retire", "log": L}] + reads + while_retired + reads
+                                    + [{"op": "migrate", "cls": "restart"}] + back + reads
+                                    + [{"op": "migrate", "cls": "retire", "log": L}, {"op": "probe", "log": L, "n": c["MaxSize"]}, {"op": "migrate", "cls": "restart"},
+                                       {"op": "probe", "log": L, "n": c["MaxSize"]}] + reads})
+                    if ret:
+                        rep.cov["reconfiguration_runs"] = len(ret)
+                        passes.append((ret, ["sqlfile"], ["id"], tagname(pl.name) + "ret", pl.name + " + the log list changes (retire / reinstate, Retire.tla)", "retire"))
             ndist = DISTRIBUTE.get(prop, 0) if tier == "quick" else 4 * DISTRIBUTE.get(prop, 0)
             if ndist:
                 # the witness' own REST distributor makes a pass between the requests (environment step "distribute" of Witness.tla: it only READS
@@ -209,10 +264,13 @@ def make_check(prop, plans_of, rule, nontrivial, level="model_checking", assumpt
                         dr.append({"id": r_["id"] + "-dist", "steps": out_ + [{"op": "distribute"}] + [{"op": "get", "log": l_} for l_ in sorted(c["Logs"])]})
                 if dr:
                     passes.append((dr, ["inmem", "sqlmem"], ["id"], tagname(pl.name) + "dist", pl.name + " + distributor passes between the requests"))
-            for runs_, stores_, embeds_, tag_, pname_ in passes:
+            for runs_, stores_, embeds_, tag_, pname_, *which_ in passes:
                 trace, runs_path = execute(work, rep, c, runs_, stores_, embeds_, seed, http=pl.http, keyof=pl.keyof, tag=tag_)
                 events = index_trace(trace)
-                fails = judge_chunks(work, rep, c, trace, events)
+                if which_ == ["retire"]:
+                    fails = judge_retire(work, rep, c, trace, events)
+                else:
+                    fails = judge_chunks(work, rep, c, trace, events)
                 count_events(rep, events, nontrivial)
                 settle(rep, prop, fails, events, c)
                 if post:
@@ -390,6 +448,13 @@ def c01_concurrent(work, rep, tier, seed):
     rep.cov["evaluations"] += sum(1 for e in evs if e.get("e") == "ret")
     rep.cov["accepts_under_concurrency"] = sum(1 for e in evs if e.get("e") == "ret" and e.get("v") == "Accept")
     c01_two_instances(work, rep, tier, seed)
+    # the history is the chain of stored checkpoints: with the store failing at TLC-listed places (begin, query, exec, COMMIT, close; SQL-driver level)
+    # every cosignature handed out is for a checkpoint that is held afterwards, and what is held never regresses
+    import checks_ops
+    fev, _ = checks_ops.fault_pipeline(work, rep, "quick", seed, "C01", groups={"driver"})
+    fups = [e for e in fev if e.get("e") == "update"]
+    rep.cov["evaluations"] += len(fups)
+    rep.cov["accepts_with_the_store_in_trouble"] = sum(1 for e in fups if e.get("fired") and e.get("v") == "Accept")
 
 
 def c01_two_instances(work, rep, tier, seed):
@@ -446,6 +511,12 @@ def c09_more(work, rep, tier, seed):
     # "each update is answered by the first rule that applies" to THAT update: overlapping submissions that differ only in their proof (or only in
     # their root) through the assembled service; each answer must be the first-match answer on a state that was current during the call
     checks_ops.prod_conc_part(work, rep, tier, seed, "C09", "each update is answered by its own first matching rule")
+    # the rule list is about what the store HOLDS: with the store in trouble (TLC-listed failure placements at SQL-driver level: begin, query, row fetch,
+    # exec, commit) the answer is an internal error or still the first matching rule on the state that was current - never "nothing stored yet"
+    evs, _ = checks_ops.fault_pipeline(work, rep, "quick", seed, "C09", groups={"driver", "fetch"})
+    ups = [e for e in evs if e.get("e") == "update"]
+    rep.cov["evaluations"] += len(ups)
+    rep.cov["verdicts_with_the_store_in_trouble"] = sum(1 for e in ups if e.get("fired"))
 
 # ----------------------------------------------------------------------------- C03
 
